@@ -56,6 +56,10 @@ ben("report_closed_by_exit_stack", ["C16", "C12"], "report written through conte
     [("conditionalrewards.py", "    with open(f\"outputs/{file_name}.txt\", \"w\") as file:\n        for name, game in game_resuts.items():",
       "    import contextlib, sys\n    sys.setrecursionlimit(max(sys.getrecursionlimit(), 5000))\n    with contextlib.ExitStack() as stack:\n        file = stack.enter_context(open(f\"outputs/{file_name}.txt\", \"w\"))\n        for name, game in game_resuts.items():")])
 
+ben("run_games_on_a_thread_pool", ["C12", "C16", "C10"], "one task per game on a ThreadPoolExecutor; every task has its own flag and its own result dict, entries are assembled in file order",
+    [("conditionalrewards.py", '    game_results = {}\n    for name, game in games_dict.items():\n        prev_game_had_solution = True\n', '    def one(name, game):\n        game_results = {}\n        prev_game_had_solution = True\n'),
+     ("conditionalrewards.py", '                "prob_min_rew": reach_min_rewards\n            }\n    return game_results\n', '                "prob_min_rew": reach_min_rewards\n            }\n        return game_results\n\n    from concurrent.futures import ThreadPoolExecutor\n    all_results = {}\n    with ThreadPoolExecutor(max_workers=4) as pool:\n        for fut in [pool.submit(one, n_, g_) for n_, g_ in games_dict.items()]:\n            all_results.update(fut.result())\n    return all_results\n')])
+
 
 ben("paths_relative_to_script_directory", ["C16", "C12", "C11", "C17"], "outputs/ and inputs/ located next to the program file instead of the working directory (the same place in `cd repo && python tool.py`)",
     [("conditionalrewards.py", "    with open(f\"outputs/{file_name}.txt\", \"w\") as file:", "    import os\n    here = os.path.dirname(os.path.abspath(__file__))\n    with open(os.path.join(here, \"outputs\", f\"{file_name}.txt\"), \"w\") as file:"),
